@@ -51,7 +51,10 @@ def units():
             for m, props in [('isSmall__v_c', ['C05', 'C20', 'C01']), ('size__v_c', ['C01', 'C20']), ('capacity__v_c', ['C05', 'C07', 'C20']),
                              ('begin__v', ['C05', 'C07']), ('begin__v_c', ['C05', 'C07', 'C20']),
                              ('incrSize__v', ['C01', 'C05', 'C07']), ('decrSize__v', ['C01', 'C05', 'C07']),
-                             ('setSize__' + S, ['C01', 'C05', 'C07'])]:
+                             ('setSize__' + S, ['C01', 'C05', 'C07']), ('msize__v', ['C01', 'C13']), ('mcapacity__v', ['C13']),
+                             ('destroyFreeStorage__v', ['C02', 'C06']), ('dtor__v', ['C06']),
+                             ('move_construct__r%s_%s' % (b, S), ['C01', 'C02', 'C05', 'C06', 'C07']),
+                             ('move_assign__r%s_%s' % (b, S), ['C01', 'C02', 'C05', 'C06', 'C07'])]:
                 add('svb.%s.%s.%s' % (m.split('__')[0] + ('_c' if m.endswith('_c') else ''), et, sz), b + '__' + m, props, 1, b, sz, elem,
                     throws_reachable=False)
     return us
